@@ -124,6 +124,13 @@ class VSA:
                     if m["k"] == "ReturnStmt" and m["c"]:
                         v = fin.eval_expr(g, m["c"][0], {})
                         if v is None:
+                            # single-exit style: a local every definition of which is a constant
+                            x_ = g.nodes[g.strip(m["c"][0])]
+                            dl_ = [d_ for d_ in q.local_defs(g).get(x_["ref"]["id"], []) if d_[0] != "addr"] if x_["k"] == "DeclRefExpr" and x_["ref"].get("dk") == "local" else []
+                            cs_ = [fin.eval_expr(g, d_[2], {}) if d_[2] is not None else None for d_ in dl_]
+                            if dl_ and all(c_ is not None for c_ in cs_) and not any(d_[0] == "addr" for d_ in q.local_defs(g).get(x_["ref"]["id"], [])):
+                                vals += [(c_, c_) for c_ in cs_]
+                                continue
                             vals = None
                             break
                         vals.append((v, v))
